@@ -147,7 +147,17 @@ def _harvest():
             ("0.1.0", "snote(n1,[c,n],6,0:3,0/1,1/8,-4.00000,-3.00000,[1])-note(1,[c,n],6,39060.60,39890.40,38)."),
             ("0.1.0", "snote(n2,[d,n],5,1:1,0/1,1/8,0.00000,1.00000,[1])-note(6,[d,n],5,48840.50,49870.99,26)."),
             ("0.2.0", "snote(n3,[e,b],5,1:2,0/1,1/4,1.00000,3.00000,[s])-note(17,[e,b],5,72600.75,75380.25,26)."),
-            ("0.1.0", "insertion-note(85,[b,b],3,162600.49,164950.51,27).")]
+            ("0.1.0", "insertion-note(85,[b,b],3,162600.49,164950.51,27)."),
+            # a sounding end BEFORE the key release (adjusted offset < offset: legal tick values, e.g. after pedal-corrected data were edited)
+            ("0.5.0", "snote(n9,[c,n],5,1:1,0,1/4,0.0,1.0,[s])-note(207,[c,n],5,3763,4020,4019,72)."),
+            ("0.4.0", "snote(n9,[c,n],5,1:1,0,1/4,0.0,1.0,[s])-note(207,[c,n],5,3763,4020,3900,72)."),
+            ("0.3.0", "insertion-note(208,[d,#],4,100,250,249,30)."),
+            # the lowest octave (-1: MIDI pitches 0..11) and the highest
+            ("1.0.0", "snote(n10,[C,n],-1,1:1,0,1/4,0.0000,1.0000,[v1,staff2])-deletion."),
+            ("1.0.0", "snote(n11,[B,b],-1,1:2,0,1/4,1.0000,2.0000,[v1,staff2])-note(n11,10,480,960,64,0,0)."),
+            ("1.0.0", "snote(n12,[G,n],9,1:3,0,1/4,2.0000,3.0000,[v1,staff1])-deletion."),
+            ("0.5.0", "snote(n10,[c,n],-1,1:1,0,1/4,0.0,1.0,[s])-deletion."),
+            ("0.3.0", "snote(n10,[a,#],-1,1:1,0,1/4,0.0,1.0,[s])-deletion.")]
     return out
 
 
@@ -203,6 +213,40 @@ def bounded(b):
         _bounded(b)
 
 
+def _token_diff(a, b_):
+    """first token at which two line texts name different values, or None; tokens are what lies between , ( ) [ ] and the final dot"""
+    from fractions import Fraction
+    ta = [t.strip() for t in re.split(r"[,()\[\]]", a.strip().rstrip("."))]
+    tb = [t.strip() for t in re.split(r"[,()\[\]]", b_.strip().rstrip("."))]
+    if len(ta) != len(tb):
+        return "%d tokens against %d" % (len(ta), len(tb))
+
+    def val(t):
+        try:
+            return Fraction(t)
+        except Exception:
+            pass
+        try:
+            if re.fullmatch(r"-?[0-9]+(/[0-9]+)+", t):
+                parts = [int(x) for x in t.split("/")]
+                return ("tuplet", Fraction(parts[0], parts[1]), tuple(parts[2:]))
+        except Exception:
+            pass
+        return t
+    for x, y in zip(ta, tb):
+        if x == y:
+            continue
+        vx, vy = val(x), val(y)
+        if isinstance(vx, Fraction) and isinstance(vy, Fraction) and abs(vx - vy) < Fraction(1, 10**4):
+            continue
+        if vx == vy:
+            continue
+        if len(x) == 1 and len(y) == 1 and x.lower() == y.lower() and x.lower() in "abcdefg":
+            continue  # note names are written in upper case whatever the case they were read in
+        return "token %r became %r" % (x, y)
+    return None
+
+
 def _bounded(b):
     from partitura.io.importmatch import parse_matchline
     from partitura.io.matchfile_utils import FractionalSymbolicDuration as F
@@ -245,6 +289,11 @@ def _bounded(b):
                 # a line of unknown provenance whose value this version's format cannot express (e.g. a list of time signatures
                 # under 0.3.0, an alternative key under 0.1.0): outside "every field value its format version allows"
                 continue
+            if ver_hint in VERSIONS:
+                # the object came from a line of this very version: what it writes names the same values, token by token (numbers compared as
+                # numbers, fractions as fractions), so a reader that drops or alters a field is seen even though it agrees with itself
+                bad_tok = _token_diff(line, s1)
+                b.case("line/written_text_carries_the_values_that_were_read", bad_tok is None, case, "read %r, wrote %r: %s" % (line[:120], s1[:120], bad_tok), nontrivial=nontriv, key=repr(key))
             try:
                 obj2 = parse_matchline(s1, methods, ver)
             except Exception as e:
